@@ -40,7 +40,7 @@ let hex_of_bytes (l : Byte.byte list) : string =
 (* ---- shapes *)
 let parse_shape (s : string) : shape =
   let pos = ref 0 in
-  let peek () = s.[!pos] in
+  let peek () = if !pos < String.length s then s.[!pos] else '\000' in
   let adv () = incr pos in
   let number () =
     let st = !pos in
@@ -115,6 +115,7 @@ let string_of_site = function
   | HNextNeg -> "next-neg" | HStrIndex -> "str-index" | HStrSlice -> "str-slice"
   | HBigRatNil -> "bigrat-nil" | HUnhashable -> "unhashable"
   | HRefNilSet -> "ref-nil-set" | HRefNilKind -> "ref-nil-kind" | HObjMapField -> "objmap-field"
+  | HObjMapKey -> "objmap-key" | HClientCount -> "client-count"
 
 let string_of_bigk = function BInt -> "bigint" | BFloat -> "bigfloat" | BRat -> "bigrat"
 let string_of_okind = function
@@ -128,7 +129,8 @@ let string_of_ek = function
 
 let string_of_n (n : BinNums.coq_N) : string = string_of_z (BinInt.Z.of_N n)
 
-let stats (s : st) (hz : site list) : string =
+let stats (inlen : int) (s : st) (hz : site list) : string =
+  let s = { s with steps = BinNat.N.add s.steps (n_of_int (inlen - Stdlib.List.length s.rest)) } in
   Printf.sprintf "steps=%s alloc=%s spin=%s excess=%s corrupt=%d err=%s haz=%s"
     (string_of_n s.steps) (string_of_n s.alloc) (string_of_n s.spin) (string_of_n s.excess)
     (if s.corrupt then 1 else 0)
@@ -158,8 +160,8 @@ let run line =
     let fin_of (type a) (r : a out) (is_err : a -> st -> bool) : string =
       let hz = hazards r in
       (match interp chk r with
-       | VDone (a, s) -> (if is_err a s then "error " else "value ") ^ stats s hz
-       | VPanic (h, s) -> "panic:" ^ string_of_site h ^ " " ^ stats s hz
+       | VDone (a, s) -> (if is_err a s then "error " else "value ") ^ stats (Stdlib.List.length input) s hz
+       | VPanic (h, s) -> "panic:" ^ string_of_site h ^ " " ^ stats (Stdlib.List.length input) s hz
        | VAsk (k, t) -> "ask:" ^ string_of_okind k ^ ":" ^ (if t = [] then "-" else hex_of_bytes t)
        | VUnmod w -> "unmod:" ^ string_of_n w
        | VFuel -> "fuel") in
